@@ -15,7 +15,8 @@ PROPERTY = "C02"
 LEVEL = "model_checking"
 CODE = ["yowsup/layers/coder/encoder.py:WriteEncoder.*", "yowsup/layers/coder/decoder.py:ReadDecoder.*",
         "yowsup/layers/coder/tokendictionary.py:TokenDictionary.*", "ref/wabinary.py (independent implementation, harness side)"]
-BOUNDS = {"quick": "[+ the same for the reference decoder; barejid choice on val / jid-server slots n<=2] " 
+BOUNDS = {"quick": "[+ d2-counts for 5 (attributes, children) pairs; 3 frames x 4 compression patterns through one decoder] " 
+                   "[+ the same for the reference decoder; barejid choice on val / jid-server slots n<=2] " 
                    "all 1257 usable dictionary indices; payload length L in [0,2^24) x 3 positions x length-form choices; one unconstrained string slot n<=2 "
                    "(n<=3 for val) x choice vectors {list16, literal, unpacked, no-jid}; string-valued content n<=3 and packed classes; deflate on solver witnesses",
           "thorough": "as quick with n<=3 for every slot (n<=4 val), all single and pairwise choice combinations"}
